@@ -320,7 +320,11 @@ let () =
          match !cur with
          | None -> failwith ("op outside case: " ^ line)
          | Some (s, w) ->
-           let o = p_op (String.split_on_char ' ' line) in
+           (* [eq_self]: the buffer compared with itself (the same object); [p_op]
+              does not see the state *)
+           let o = (match String.split_on_char ' ' line with
+                    | ["eq_self"] -> OEq s
+                    | toks -> p_op toks) in
            (* specification *)
            (match spec_step s.cap (abs s) o w.next_id with
             | SRet r ->
